@@ -36,7 +36,8 @@ Subtree(p, h) == {h} \cup UNION {Subtree(p, x) : x \in {y \in H(p) : p.D[y].pres
 
 Has(rec, f) == f \in DOMAIN rec
 NamedD(p, rec) ==
-  IF ~Has(rec, "h") THEN (IF Has(rec, "d") THEN {rec.d} ELSE {})
+  IF Has(rec, "hs") THEN {rec.hs[i] : i \in DOMAIN rec.hs}
+  ELSE IF ~Has(rec, "h") THEN (IF Has(rec, "d") THEN {rec.d} ELSE {})
   ELSE IF rec.act = "RemoveDescriptor" THEN Subtree(p, rec.h) \cup {p.D[rec.h].parent}
   ELSE IF rec.act \in {"AddDescriptor", "NewEntity"} THEN {rec.h, rec.p}
   ELSE {rec.h}
